@@ -448,8 +448,13 @@ class Function:
         finally:
             try:
                 if task in cls.task2cb:
-                    for callback, info in cls.task2cb[task]["cb"].items():
-                        ast_ctx, args, kwargs = info
+                    # a done callback may add or remove callbacks of this task: walk a copy, and
+                    # call the ones that are still registered, with their current arguments
+                    callbacks = cls.task2cb[task]["cb"]
+                    for callback in callbacks.copy():
+                        if callback not in callbacks:
+                            continue
+                        ast_ctx, args, kwargs = callbacks[callback]
                         try:
                             await ast_ctx.call_func(callback, None, *args, **kwargs)
                         except Exception as e:
